@@ -209,8 +209,10 @@ class Run:
         cfg = make_config(sc["cfg"])
         self.cfg = cfg
         self.obs_kind = OBS_KINDS[sc["cfg"].get("obs", "BinaryActionObservationFactory")]
-        random.seed(sc.get("seed", 0))
-        np.random.seed(sc.get("seed", 0))
+        if getattr(self, "seed_globals", True):
+            # ambient state of the process-global generators (the twins of C13 leave theirs disturbed)
+            random.seed(sc.get("seed", 0))
+            np.random.seed(sc.get("seed", 0))
         repo = DslStrRepository(sc["dsl"], "warning", cfg)
         self.compiler = CapturingCompiler(cfg, "warning", repo=repo)
         _REC.take()
@@ -492,6 +494,52 @@ class Run:
     def end(self):
         self.cmds.append("END")
         self.out.append("E")
+
+
+def two_episodes(run, actions, other=None, start=True):
+    """C13: the trace of `actions` from reset, then `env.reset()` and the same actions again;
+    `other` is a second live environment stepped in between (it must not matter)"""
+    import random as _r
+    trace = []
+    if start:
+        alive = run.start()
+    else:
+        alive = run.env is not None
+    if run.env is None:
+        return {"lines": ["no-env"], "unrep": run.unrep}
+    if start:
+        trace += [l for l in run.out if l[:1] in "STOAVFRXL"]
+
+    def episode():
+        nonlocal alive
+        k = 0
+        for a in actions:
+            if not alive:
+                break
+            if other is not None and other.env is not None and not other.env.done and k % 3 == 0:
+                other._guard(lambda: other.env.step(k % 2))
+            n0 = len(run.out)
+            alive = run.act(a)
+            trace.extend(l for l in run.out[n0:] if l[:1] in "STOAVFRX")
+            k += 1
+    if start:
+        episode()
+    trace.append("== reset")
+    saved = (run.cmds, run.out, run.records)
+    run.cmds, run.out, run.records = [], [], []
+    try:
+        r, err = run._guard(lambda: run.env.reset())
+        _REC.take()
+        if err is not None:
+            trace.append("X " + err_name(err))
+        else:
+            trace += res_lines(run.env.state)
+            trace.append(obs_line(r[0], run.obs_kind))
+            alive = True
+            episode()
+    finally:
+        run.cmds, run.out, run.records = saved
+    return {"lines": trace, "unrep": run.unrep}
 
 
 def guards(inst, st):
